@@ -174,3 +174,160 @@ m("c17_index0_regression", "C17", PC, """    for(long term=0; term<num_terms; te
     for(long term=0; term<num_terms; term++) {
         // only write index[0] if there is at least one term
         index[term] = term ? index[term-1] + num_couplings[term-1] : 0;""")
+
+PB = "qubovert/_pcbo.py"
+PS = "qubovert/_pcso.py"
+PU = "qubovert/_pubo.py"
+PSU = "qubovert/_puso.py"
+DA = "qubovert/utils/_dict_arithmetic.py"
+PM = "qubovert/utils/_pubomatrix.py"
+PSM = "qubovert/utils/_pusomatrix.py"
+BO = "qubovert/utils/_bo_parentclass.py"
+VA = "qubovert/utils/_values.py"
+SB = "qubovert/utils/_solve_bruteforce.py"
+INF = "qubovert/utils/_info.py"
+QB = "qubovert/_qubo.py"
+QS = "qubovert/_quso.py"
+
+# ---------------------------------------------------------------- C02
+m("c02_num_bits_off_by_one", "C02", PB, """                for i in range(num_bits(-min_val, log_trick)):
+                    v = pow(2, i) if log_trick else 1
+                    P[(self._next_ancilla,)] += v""", """                for i in range(max(num_bits(-min_val, log_trick) - 1, 0)):
+                    v = pow(2, i) if log_trick else 1
+                    P[(self._next_ancilla,)] += v""")
+m("c02_lt_shift_dropped", "C02", PB, """            P = P + 1
+            min_val += 1
+            max_val += 1""", """            P = P + 0
+            min_val += 1
+            max_val += 1""")
+m("c02_next_ancilla_not_incremented", "C02", PB, """        self._ancilla += 1
+        return "__a%d" % (self._ancilla - 1)""", """        self._ancilla += (self._ancilla < 2)
+        return "__a%d" % (self._ancilla - 1)""")
+m("c02_copy_loses_ancilla", "C02", PB, """            self._ancilla = args[0].num_ancillas""", """            self._ancilla = 0""")
+m("c02_gt_bounds_swapped", "C02", PB, """        min_val, max_val = _get_bounds(P, bounds)
+        bounds = -max_val, -min_val
+        self.add_constraint_lt_zero(""", """        min_val, max_val = _get_bounds(P, bounds)
+        bounds = -min_val, -max_val
+        self.add_constraint_lt_zero(""")
+m("c02_eq_square_dropped", "C02", PB, """            self += lam * P * P""", """            self += lam * P""")
+m("c02_le_records_slack", "C02", PB, """            # don't mutate the P that we put in self._constraints
+            P = P.copy()
+            if min_val:""", """            # don't mutate the P that we put in self._constraints
+            if min_val:""")
+m("c02_is_valid_le_strict", "C02", PB, """        if any(v.value(solution) > 0
+               for v in self._constraints.get("le", [])):""", """        if any(v.value(solution) >= 0
+               for v in self._constraints.get("le", [])):""")
+m("c02_info_drops_ancillas", "C02", INF, """        model._ancilla = info["num_ancillas"]""", """        model._ancilla = 0""")
+m("c02_ne_sign_slack_short", "C02", PB, """            for i in range(num_bits(max_val - min_val - 1, log_trick)):""", """            for i in range(num_bits(max(max_val - min_val - 2, 0), log_trick)):""", expect="maybe")
+
+# ---------------------------------------------------------------- C03
+m("c03_counter_not_returned", "C03", PS, """        h = _empty_pcbo(self).add_constraint_le_zero(
+            puso_to_pubo(H), lam=lam, log_trick=log_trick,
+            bounds=bounds, suppress_warnings=suppress_warnings
+        )
+        self._ancilla = h._ancilla""", """        h = _empty_pcbo(self).add_constraint_le_zero(
+            puso_to_pubo(H), lam=lam, log_trick=log_trick,
+            bounds=bounds, suppress_warnings=suppress_warnings
+        )""")
+m("c03_empty_pcbo_starts_at_zero", "C03", PS, """    h._ancilla = pcso._ancilla""", """    h._ancilla = 0""")
+m("c03_penalty_not_converted", "C03", PS, """        h = _empty_pcbo(self).add_constraint_eq_zero(
+            puso_to_pubo(H), lam=lam,
+            bounds=bounds, suppress_warnings=suppress_warnings
+        )
+        self._ancilla = h._ancilla
+        self += pubo_to_puso(h)""", """        h = _empty_pcbo(self).add_constraint_eq_zero(
+            puso_to_pubo(H), lam=lam,
+            bounds=bounds, suppress_warnings=suppress_warnings
+        )
+        self._ancilla = h._ancilla
+        self += h""")
+
+# ---------------------------------------------------------------- C05
+m("c05_rsub_sign", "C05", DA, """        return -1*self + other""", """        return self - other""")
+m("c05_imul_no_snapshot", "C05", DA, """            items, oitems = tuple(self.items()), tuple(other.items())
+            self.clear()""", """            items, oitems = tuple(self.items()), other.items()
+            self.clear()""")
+m("c05_spin_squash_parity", "C05", PSM, """            (x for x in set(key) if key.count(x) % 2),""", """            (x for x in set(key) if key.count(x) % 2 or key.count(x) > 3),""")
+m("c05_setitem_keeps_zero", "C05", DA, """        if value:
+            super().__setitem__(key, value)
+        else:
+            self.pop(key, 0)""", """        if value or key == ():
+            super().__setitem__(key, value)
+        else:
+            self.pop(key, 0)""")
+m("c05_copy_returns_self", "C05", DA, """        return self.__class__(self)""", """        return self if len(self) > 3 else self.__class__(self)""")
+m("c05_puso_value_parity", "C05", VA, """        v * pow(-1, [z[i] for i in k].count(-1) % 2)""", """        v * pow(-1, [z[i] for i in set(k)].count(-1) % 2)""")
+m("c05_isub_adds_offset", "C05", DA, """        else:
+            self[()] -= other
+        return self""", """        else:
+            self[()] -= abs(other)
+        return self""")
+m("c05_ipow_one_too_many", "C05", DA, """            for _ in range(exponent-1):
+                self *= old""", """            for _ in range(exponent-1 + (exponent > 2)):
+                self *= old""")
+m("c05_quso_value_len2", "C05", VA, """        v * (z[k[0]] if k else 1) * (z[k[1]] if len(k) > 1 else 1)""", """        v * (z[k[0]] if k else 1) * (z[k[-1]] if len(k) > 1 else 1)""", expect="equivalent")
+
+# ---------------------------------------------------------------- C08
+m("c08_default_lam_half", "C08", PU, """        return 1 + abs(v)""", """        return abs(v) / 2""")
+m("c08_default_lam_abs_equivalent", "C08", PU, """        return 1 + abs(v)""", """        return abs(v)""", expect="maybe")
+m("c08_ancilla_start_n_minus_1", "C08", PU, """        ancilla = self.num_binary_variables""", """        ancilla = max(self.num_binary_variables - 1, 0)""")
+m("c08_convert_solution_off_by_one", "C08", QB, """            for i in range(self.num_binary_variables)""", """            for i in range(max(self.num_binary_variables - 1, 0))""")
+m("c08_remove_ancilla_prefix", "C08", PB, """        return {k: v for k, v in solution.items() if str(k)[:3] != "__a"}""", """        return {k: v for k, v in solution.items() if str(k)[:2] != "__" and str(k)[:1] != "a"}""")
+m("c08_solve_ignores_validity", "C08", PM, """        return solve_pubo_bruteforce(self,
+                                     all_solutions, self.is_solution_valid)[1]""", """        return solve_pubo_bruteforce(self,
+                                     all_solutions)[1]""")
+m("c08_reduction_penalty_once", "C08", PU, """                if previously_used:
+                    z = reductions[(x, y)]""", """                if previously_used:
+                    z = reductions[(x, y)]
+                    v = 0 * v + v""", expect="equivalent")
+
+# ---------------------------------------------------------------- C14
+m("c14_nbv_per_key", "C14", PM, """            for i in filter(lambda x: x not in self._variables, k):
+                self._variables.add(i)
+                self._num_binary_variables += 1""", """            for i in filter(lambda x: x not in self._variables, k):
+                self._variables.add(i)
+            self._num_binary_variables = len(self._variables) - (len(self._variables) > 4)""")
+m("c14_refresh_keeps_mapping", "C14", PM, """        d = self.copy()
+        super().clear()
+        self.__init__(d)""", """        d = self.copy()
+        m = getattr(self, "_mapping", None)
+        super().clear()
+        self.__init__(d)
+        if m is not None:
+            self._mapping = m""")
+m("c14_ancilla_start_max_index", "C14", PU, """        ancilla = self.num_binary_variables""", """        ancilla = max(self._mapping.values(), default=0)""")
+m("c14_clear_keeps_variables", "C14", PM, """        super().clear()
+        self.__init__()""", """        v = self._variables
+        super().clear()
+        self.__init__()
+        self._variables = v""")
+m("c14_create_pubo_no_variables", "C14", PSU, """        P._variables = self.variables
+        P._num_binary_variables = self.num_binary_variables""", """        pass""")
+m("c14_zero_assign_regression", "C14", BO, """            if i not in self._mapping and i in self._variables:""", """            if i not in self._mapping:""")
+m("c14_imul_regression", "C14", PB, """        self._constraints, self._ancilla = constraints, ancilla
+        return self""", """        self._constraints = constraints
+        return self""")
+m("c14_degree_not_updated", "C14", PM, """            self._degree = max(self._degree, len(k))""", """            self._degree = max(self._degree, min(len(k), 3))""")
+
+# ---------------------------------------------------------------- C19
+m("c19_constraints_returns_stored", "C19", PB, """        return {k: [x.copy() for x in v] for k, v in self._constraints.items()}""", """        return {k: list(v) for k, v in self._constraints.items()}""")
+m("c19_mapping_returns_internal", "C19", BO, """        return self._mapping.copy()""", """        return self._mapping""")
+m("c19_copy_ctor_shares_constraints", "C19", PB, """            self._constraints = args[0].constraints""", """            self._constraints = args[0]._constraints""")
+m("c19_solve_no_offset_restore", "C19", SB, """            return offset, ({} if not all_solutions else [{}])
+        D[()] = offset""", """            return offset, ({} if not all_solutions else [{}])
+        if len(D) < 3:
+            D[()] = offset""")
+m("c19_info_drops_ancillas", "C19", INF, """        model._ancilla = info["num_ancillas"]""", """        model._ancilla = 0""")
+m("c19_variables_returns_internal", "C19", PM, """        return self._variables.copy()""", """        return self._variables""")
+m("c19_info_terms_aliased", "C19", INF, """        terms=dict(model),""", """        terms=model,""")
+m("c19_pcso_constraints_stored", "C19", PS, """        return {k: [x.copy() for x in v] for k, v in self._constraints.items()}""", """        return self._constraints""")
+m("c19_subvalue_mutates_values", "C19", "qubovert/utils/_subgraph.py", """    D = type(G)()
+    for k, v in G.items():
+        if not isinstance(k, tuple):
+            raise ValueError("Keys must be tuples")
+        key = tuple(filter(lambda x: x not in values, k))""", """    D = type(G)()
+    values.setdefault("__seen", 1)
+    for k, v in G.items():
+        if not isinstance(k, tuple):
+            raise ValueError("Keys must be tuples")
+        key = tuple(filter(lambda x: x not in values, k))""")
